@@ -56,9 +56,27 @@ fn origin() -> impl Strategy<Value = Labels> {
 /// unrelated
 fn name_in(origins: Vec<Labels>) -> impl Strategy<Value = Labels> {
     let n = origins.len();
-    (0..n, prop_oneof![3 => Just(0usize), 5 => Just(1usize), 2 => Just(2usize), 1 => Just(9usize)], vec(label(), 2), any::<bool>(), vec(ldh(), 1..=3)).prop_map(
-        move |(oi, depth, ls, star, other)| {
+    (0..n, prop_oneof![6 => Just(0usize), 10 => Just(1usize), 4 => Just(2usize), 1 => Just(7usize), 2 => Just(9usize)], vec(label(), 2), any::<bool>(), vec(ldh(), 1..=3), 0usize..4).prop_map(
+        move |(oi, depth, ls, star, other, short_by)| {
             let o = &origins[oi];
+            if depth == 7 {
+                // RFC 1035 §2.3.4 boundary: a name below the origin whose wire form is exactly 255
+                // octets (mostly) or 1-3 octets shorter
+                let target = 255 - [0usize, 0, 1, 3][short_by];
+                let used: usize = o.iter().map(|l| l.len() + 1).sum::<usize>() + 1;
+                let mut room = target.saturating_sub(used);
+                let mut out: Labels = Vec::new();
+                while room >= 2 {
+                    let mut take = room.min(64);
+                    if room - take == 1 {
+                        take -= 1;
+                    }
+                    out.push(ls[0].chars().filter(|c| c.is_ascii_alphanumeric()).chain(std::iter::repeat('a')).take(take - 1).collect());
+                    room -= take;
+                }
+                out.extend(o.iter().cloned());
+                return out;
+            }
             let mut out: Labels = match depth {
                 0 => vec![],
                 1 => vec![ls[0].clone()],
